@@ -284,4 +284,59 @@ class ReaderToSearcher(object):
             shutil.rmtree(dst, ignore_errors=True)
 
 
-FAMILIES = [SearcherLists(), FileSearchers(), ReaderToSearcher()]
+class NoDepsFileNames(object):
+    name = 'nodeps-and-file-names'
+    describe = ('FOO-MIB imports BAR-MIB; both on disk under every documented file-name variant (as given, lower case, with '
+                'extension, -MIB suffix removed) read by the real FileReader with fuzzy matching; request FOO-MIB / BAR-MIB / both, '
+                'noDeps on/off: exactly the requested modules are generated under noDeps, all otherwise')
+    VARIANTS = {'FOO-MIB': ['FOO-MIB', 'FOO-MIB.mib', 'foo-mib.txt', 'FOO.mib', 'foo.my'],
+                'BAR-MIB': ['BAR-MIB', 'bar-mib.mib', 'BAR.txt']}
+
+    def blocks(self, tier):
+        return [{'f': f} for f in self.VARIANTS['FOO-MIB']]
+
+    def cases(self, block, tier):
+        for b in self.VARIANTS['BAR-MIB']:
+            for req in (['FOO-MIB'], ['BAR-MIB'], ['FOO-MIB', 'BAR-MIB'], ['BAR-MIB', 'FOO-MIB']):
+                for nd in (False, True):
+                    yield {'f': block['f'], 'b': b, 'req': req, 'nd': nd}
+
+    def run_case(self, case):
+        from mc import env
+        from pysmi.reader.localfile import FileReader
+        d = scratch()
+        try:
+            for bname in env.BASE_NAMES:
+                with open(os.path.join(d, bname), 'w') as f:
+                    f.write(env.base_text(bname))
+            with open(os.path.join(d, case['b']), 'w') as f:
+                f.write('BAR-MIB DEFINITIONS ::= BEGIN\nIMPORTS enterprises FROM SNMPv2-SMI;\nbar OBJECT IDENTIFIER ::= { enterprises 2 }\nEND\n')
+            with open(os.path.join(d, case['f']), 'w') as f:
+                f.write('FOO-MIB DEFINITIONS ::= BEGIN\nIMPORTS bar FROM BAR-MIB;\nfoo OBJECT IDENTIFIER ::= { bar 1 }\nEND\n')
+            w = env.CaptureWriter()
+            comp = env.MibCompiler(env.fresh_parser('smiV2'), env.make_codegen('json'), w)
+            comp.addSources(FileReader(d).setOptions(fuzzyMatching=True))
+            comp.addSearchers(env.StubSearcher(*env.BASE_NAMES))
+            res = comp.compile(*case['req'], noDeps=case['nd'])
+            written = sorted(n for n, _, _ in w.written)
+            want = {}
+            closure = ['FOO-MIB', 'BAR-MIB'] if 'FOO-MIB' in case['req'] else ['BAR-MIB']
+            for m in closure:
+                want[m] = 'compiled' if (not case['nd'] or m in case['req']) else 'untouched'
+            vs = []
+            sig = 'C10|nodeps-file-names|%s' % ('noDeps' if case['nd'] else 'deps')
+            for m, st in sorted(want.items()):
+                if str(res.get(m)) != st:
+                    how = 'as-given' if (case['f'] if m == 'FOO-MIB' else case['b']).split('.')[0] == m else 'other-spelling'
+                    vs.append(('%s|%s-module-%s-where-%s|file-name-%s' % (sig, 'requested' if m in case['req'] else 'imported',
+                                                                      res.get(m), st, how),
+                               'request %r, files %r %r, statuses %r, written %r' % (
+                                   case['req'], case['f'], case['b'], dict((k, str(v)) for k, v in res.items()), written)))
+            if written != sorted(m for m, st in want.items() if st == 'compiled'):
+                vs.append(('%s|written-set-differs' % sig, 'written %r, expected %r' % (written, want)))
+            return repr(sorted((k, str(v)) for k, v in res.items())), vs, 1
+        finally:
+            shutil.rmtree(d, ignore_errors=True)
+
+
+FAMILIES = [SearcherLists(), FileSearchers(), ReaderToSearcher(), NoDepsFileNames()]
